@@ -348,7 +348,7 @@ func ruleRawRead(c *Ctx) {
 				}
 			}
 			for _, cd := range g.CondsAtInstr(cl) {
-				if b, ok := cd.V.(*ssa.BinOp); ok && b.Op == token.EQL && cd.Sense {
+				if b, ok := cd.V.(*ssa.BinOp); ok && eqHolds(b, cd) {
 					if k, ok := constInt(b.Y); ok {
 						seen[k] = true
 					}
@@ -699,6 +699,20 @@ func ruleScopes(c *Ctx) {
 				readerFound++
 			case yStart && (b.Op == token.GTR || b.Op == token.GEQ):
 				readerStrictStart = b.Op == token.GTR
+				readerFound++
+			// the same tests spelled as their negation (`if pc >= EndPc { continue }`, `if StartPc > pc { break }`):
+			// in scope is what is left when the test fails
+			case yEnd && (b.Op == token.GEQ || b.Op == token.GTR): // pc >= EndPc: out of scope
+				readerStrictEnd = b.Op == token.GEQ
+				readerFound++
+			case xEnd && (b.Op == token.LEQ || b.Op == token.LSS): // EndPc <= pc: out of scope
+				readerStrictEnd = b.Op == token.LEQ
+				readerFound++
+			case xStart && (b.Op == token.GTR || b.Op == token.GEQ): // StartPc > pc: not yet in scope
+				readerStrictStart = b.Op == token.GEQ
+				readerFound++
+			case yStart && (b.Op == token.LSS || b.Op == token.LEQ): // pc < StartPc: not yet in scope
+				readerStrictStart = b.Op == token.LEQ
 				readerFound++
 			}
 		})
